@@ -31,9 +31,10 @@ Definition ripple_add (a b : list bool) (cin : bool) : list bool :=
 
 (* ------------------------------------------------------------ kogge_stone *)
 
-(* FIXABLE SPOT (F9).  The generate bits the prefix tree starts from.  The
-   code as it is uses `a & b` and never feeds cin into the tree.  A fix that
-   folds cin into bit 0 corresponds to ks_init_gen_cin below. *)
+(* SWITCH POINT (F9).  The generate bits the prefix tree starts from.  Before the
+   fix (fa565d3) the code used `a & b` and never fed cin into the tree
+   (ks_init_gen_asis); since the fix `gen_bits[0] = gen_bits[0] | (prop_bits[0] & cin)`
+   (ks_init_gen_cin).  `ks_init_gen` below selects the model of record. *)
 Definition ks_init_gen_asis (a b : list bool) (cin : bool) : list bool := map2 andb a b.
 
 Definition ks_init_gen_cin (a b : list bool) (cin : bool) : list bool :=
@@ -83,8 +84,8 @@ Fixpoint ks_trace (fuel d n : nat) (gp : list bool * list bool) : list (list boo
   | S f => if (d <? n)%nat then gp :: ks_trace f (2 * d) n (ks_stage d n gp) else [gp]
   end.
 
-(* THE model of kogge_stone as the code is today *)
-Definition ks_init_gen := ks_init_gen_asis.
+(* THE model of kogge_stone as the code is today (after fix fa565d3) *)
+Definition ks_init_gen := ks_init_gen_cin.
 Definition kogge_stone := kogge_stone_with ks_init_gen.
 
 (* ------------------------------------------------------------- cla_adder *)
@@ -126,13 +127,16 @@ Fixpoint cla_rec (fuel la : nat) (a b : list bool) (cin : bool) : list bool :=
   end.
 
 Definition cla_adder (la : nat) (a b : list bool) (cin : bool) : list bool :=
-  let '(a', b') := match2 a b in cla_rec (length a') la a' b' cin.
+  let '(a', b') := match2 a b in cla_rec (S (length a')) la a' b' cin.
 
 (* -------------------------------------------------------- carrysave_adder *)
 
-(* FIXABLE SPOT (F12).  With all three operands one bit wide,
-   `partial_sum[1:]` is an empty slice and PyRTL raises. *)
-Definition cs_width1_raises : bool := true.
+(* F12.  Before fix 36743df the code was
+     concat(final_adder(partial_sum[1:], shift_carry), partial_sum[0])
+   and raised when all three operands are one bit wide (empty slice):
+   carrysave_adder_with true.  Since the fix it is
+     final_adder(partial_sum, concat(shift_carry, Const(0, 1)))
+   = carrysave_adder below (the model of record). *)
 
 Fixpoint map3 (f : bool -> bool -> bool -> bool) (a b c : list bool) : list bool :=
   match a, b, c with
@@ -155,7 +159,12 @@ Definition carrysave_adder_with (raises1 : bool) (add : adder) (a b c : list boo
        | p0 :: pt => Some (p0 :: add pt shift_carry)
        end.
 
-Definition carrysave_adder := carrysave_adder_with cs_width1_raises.
+Definition carrysave_adder (add : adder) (a b c : list bool) : option (list bool) :=
+  let n := Nat.max (length a) (Nat.max (length b) (length c)) in
+  let a' := zext n a in let b' := zext n b in let c' := zext n c in
+  let partial_sum := map3 cs_sum a' b' c' in
+  let shift_carry := map3 cs_carry a' b' c' in
+  Some (add partial_sum (false :: shift_carry)).
 
 (* ---------------------------------------------------------- tree reducers *)
 
@@ -208,12 +217,33 @@ Fixpoint sparse_split (cols : list (list bool)) : option (list bool * list (list
            end
   end.
 
-Definition sparse_adder (add : adder) (cols : list (list bool)) : option (list bool) :=
-  match sparse_split cols with
+(* a repaired _sparse_adder that never raises: an empty leading column passes a
+   constant 0, and when no column has height 2 there is nothing left to add *)
+Fixpoint sparse_split_total (cols : list (list bool)) : option (list bool * list (list bool)) :=
+  match cols with
+  | [] => Some ([], [])
+  | c :: rest =>
+      if (length c =? 2)%nat then Some ([], cols)
+      else match sparse_split_total rest with
+           | Some (pre, z) => Some (nth 0 c false :: pre, z)
+           | None => None
+           end
+  end.
+
+Definition sparse_adder_with (split : list (list bool) -> option (list bool * list (list bool)))
+    (add : adder) (cols : list (list bool)) : option (list bool) :=
+  match split cols with
   | None => None
+  | Some (pre, []) => Some pre
   | Some (pre, z) =>
       Some (pre ++ add (map (fun c => nth 0 c false) z) (map (fun c => nth 1 c false) z))
   end.
+
+(* FIXABLE SPOT (_sparse_adder raising when no column has height 2): the code
+   as it is = sparse_split; a repaired version = sparse_split_total (then also
+   switch the lemma used in ReducerProofs.sparse_adder_spec). *)
+Definition sparse_adder : adder -> list (list bool) -> option (list bool) :=
+  sparse_adder_with sparse_split.
 
 Definition maxheight (cols : list (list bool)) : nat :=
   fold_right (fun c m => Nat.max (length c) m) O cols.
